@@ -8,7 +8,7 @@ import json, os
 import vf, starklib
 
 META = dict(
-    technique="TLA+ corruption classification (structural lemma model-checked by TLC against the AIR semantics) + TLC-sampled corrupted instances replayed through the real prover and verifier",
+    technique="TLA+ corruption classification (structural lemma model-checked by TLC against the AIR semantics) + TLC-sampled corrupted instances replayed through the real prover and verifier + TLC-checked Schwartz-Zippel bound of the batching functions (Coeffs.tla) with complete coefficient vectors replayed on the real Air coefficient methods over a toy field",
     text="TLC samples supported configurations over f62/f64/f128 with every hasher and one corruption each (cell at every row class, row, column, auxiliary cell, public input); the specification decides whether the statement became false; the real prover+verifier (release build) must then not accept, while corruptions of unconstrained cells must still be accepted.",
     note="Adversaries are honest-pipeline provers on bad traces (adaptive adversaries are C03). Rejection relies on the out-of-domain check, failure probability <= degree/|F| < 2^-50 over the 62/64/128-bit fields; toy fields are excluded. Only corruptions the lemma classifies are used.",
     design="7/C02")
@@ -37,6 +37,36 @@ def judge(ck, name, cases, results):
     return stats
 
 
+COEFF_KEYS = ("transition", "boundary", "cc_used", "trace", "constraints", "deep_used")
+
+
+def coefficients(ck, binary):
+    """Coeffs.tla: TLC checks the Schwartz-Zippel bound of the three batching functions on a small field
+    and computes the complete coefficient vectors of every listed configuration over F_40961 and its
+    extensions; the real Air::get_*_composition_coefficients must return exactly those vectors and
+    consume exactly that many draws."""
+    cases = starklib.generate(ck, "Coeffs.cfg", "coefficients", tag="COEFFS")
+    ck.require(len(cases) >= 300, "coefficient family too small: %d" % len(cases))
+    res = starklib.run_pipeline(binary, "c02-coeffs", cases, engine="coeffs")
+    bad = 0
+    for c, r in zip(cases, res):
+        e = c["expect"]
+        wrong = [k for k in COEFF_KEYS if r.get(k) != e[k]]
+        if wrong or e["ncc"] != e["cc_used"] or e["ndeep"] != e["deep_used"]:
+            bad += 1
+            ck.violation("C02 composition coefficients differ from the specified batching function (method %d/%d): %s"
+                         % (c["cbatch"], c["dbatch"], ",".join(wrong)),
+                         "ext=%d width=%d asserts=%d aux=%d :: got %s" % (c["ext"], c["desc"]["width"], len(c["desc"]["asserts"]),
+                                                                       len(c["desc"]["aux"]), json.dumps({k: r.get(k) for k in wrong} or r)[:400]),
+                         {"engine": "coeffs", "case": c, "result": r})
+    # vacuity: single-challenge methods with at least two transition and two boundary coefficients, all degrees
+    rich = {(c["ext"], c["cbatch"]) for c in cases if len(c["expect"]["transition"]) >= 2 and len(c["expect"]["boundary"]) >= 2}
+    ck.require({(e, m) for e in (1, 2, 3) for m in (0, 1, 2)} <= rich, "coefficient cases do not cover every method/degree: %s" % sorted(rich))
+    ck.traces += len(cases)
+    ck.evaluations += len(cases)
+    ck.part("coefficients", cases=len(cases), mismatches=bad)
+
+
 def run(ck, tier):
     binary = vf.build_harness("stark")
     thorough = tier == "thorough"
@@ -46,6 +76,7 @@ def run(ck, tier):
     ck.require(len(cases) >= n // 4, "too few corrupted cases: %d" % len(cases))
     res = starklib.run_pipeline(binary, "c02", cases)
     stats = judge(ck, "corrupt", cases, res)
+    coefficients(ck, binary)
     # fixed family: cells only an assertion constrains, over assertion layouts sharing first steps / strides
     fixed = starklib.generate(ck, "FixedStarkCorrupt.cfg", "fixed-family", tag="FIXED")
     ck.require(len(fixed) >= 100, "fixed corruption family too small: %d" % len(fixed))
@@ -71,6 +102,15 @@ def run(ck, tier):
 
 def replay(ck, path):
     binary = vf.build_harness("stark")
-    c = json.load(open(path))["replay"]["case"]
+    rp = json.load(open(path))["replay"]
+    c = rp["case"]
+    if rp.get("engine") == "coeffs":
+        r = starklib.run_pipeline(binary, "c02-replay", [c], engine="coeffs")[0]
+        wrong = [k for k in COEFF_KEYS if r.get(k) != c["expect"][k]]
+        if wrong:
+            ck.violation("C02 composition coefficients differ from the specified batching function (method %d/%d): %s"
+                         % (c["cbatch"], c["dbatch"], ",".join(wrong)), json.dumps(r)[:400], rp)
+        ck.part("replay", cases=1, mismatches=len(wrong))
+        return
     res = starklib.run_pipeline(binary, "c02-replay", [c])
     judge(ck, "replay", [c], res)
